@@ -67,8 +67,8 @@ type c19env struct {
 	fresh map[string]string // result set -> last values line seen since its last change ("" = collected, line unknown)
 	isFr  map[string]bool
 	// outcome statistics
-	gaveUp                                                     bool
-	nUpd, nRead, nAvg, nLoop, maxN, nFinish, nClient, nRunTest int
+	gaveUp                                                               bool
+	nUpd, nRead, nAvg, nLoop, maxN, nFinish, nClient, nRunTest, nProxied int
 }
 
 func c19bits(x float64) string {
@@ -802,6 +802,8 @@ func c19run(res *c19result, mu *sync.Mutex) {
 			}
 		case tk[1] == "runtest" && len(tk) == 8:
 			emit(e.runTest(tk, fail))
+		case tk[1] == "proxied" && len(tk) == 6:
+			emit(e.proxied(tk, fail))
 		case tk[1] == "mupd" && len(tk) == 5:
 			x, ok := c19parseBits(tk[3])
 			host, err := strconv.Atoi(tk[4])
@@ -1076,7 +1078,7 @@ func c19run(res *c19result, mu *sync.Mutex) {
 		return ">16"
 	}
 	mu.Lock()
-	res.outcome = fmt.Sprintf("sets=%d buckets=%d maxn=%s reads=%s avg=%d loop=%d finish=%d client=%s runtest=%d", len(e.stats), nb, bucketN(e.maxN), bucketN(e.nRead), e.nAvg, e.nLoop, e.nFinish, bucketN(e.nClient), e.nRunTest)
+	res.outcome = fmt.Sprintf("sets=%d buckets=%d maxn=%s reads=%s avg=%d loop=%d finish=%d client=%s runtest=%d proxied=%d", len(e.stats), nb, bucketN(e.maxN), bucketN(e.nRead), e.nAvg, e.nLoop, e.nFinish, bucketN(e.nClient), e.nRunTest, e.nProxied)
 	mu.Unlock()
 }
 
@@ -1881,6 +1883,38 @@ func c19genAll(c *h.Ctx, yield func(*h.Case)) {
 		yield(g.cs)
 	}
 
+	// ---- clients that report through the proxy (c19proxy.go): orderly and abrupt ends, one client after the other
+	proxied := func(n int, kinds string, per int, k int) {
+		names := []string{c19names[r.Intn(7)], c19names[r.Intn(7)]}
+		var parts []string
+		for q := 0; q < n; q++ {
+			var recs []string
+			for j := 0; j < r.Intn(per+1); j++ {
+				recs = append(recs, fmt.Sprintf("%s/%s/%d", names[r.Intn(2)], bitsOf(g.value(k)), g.host()))
+			}
+			mode := kinds[q%len(kinds)]
+			if kinds == "?" {
+				mode = "ox"[r.Intn(2)]
+			}
+			parts = append(parts, string(mode)+":"+c19join(recs, ","))
+		}
+		g.op("proxied g %d %d %s", 1+r.Intn(64), 2+r.Intn(8), strings.Join(parts, ";"))
+		c.Count("op=proxied")
+		g.op("values g")
+		g.accAll("g", names)
+	}
+	start("corpus-proxied-reset-then-late-client") // seeded change C19r6-B: a client's reset took the endpoint out of the rotation
+	g.op("proxied g 4 2 x:round/4000000000000000/1;o:late/4024000000000000/2,late/4034000000000000/2")
+	g.op("values g")
+	g.op("acc g round")
+	g.op("acc g late")
+	yield(g.cs)
+	for i := 0; i < c.Pick(25, 250); i++ {
+		start("proxied")
+		proxied(1+r.Intn(4), "?", 6, g.kind())
+		yield(g.cs)
+	}
+
 	// ---- lines the model must refuse exactly as the harness does ----------------------------
 	for _, ops := range [][]string{
 		{"c19 values nosuch"}, {"c19 mon nosuch"}, {"c19 stats s hosts=1 -", "c19 stats s hosts=1 -"},
@@ -1890,6 +1924,7 @@ func c19genAll(c *h.Ctx, yield func(*h.Case)) {
 		{"c19 stats s hosts=1 -", "c19 mon s", "c19 tmeasure round 1 1 fresh"}, {"c19 stats s hosts=1 -", "c19 mon s", "c19 cmeasure net 1 1.2.3.4"},
 		{"c19 runtest g 0 2 1 - -"}, {"c19 runtest g 4 2 1 zz -"}, {"c19 runtest g 4 2 1 - m/zz/1"}, {"c19 runtest g 4 2 1 " + c19hexRules([]string{"1-5"}) + " -"},
 		{"c19 stats g hosts=1 -", "c19 runtest g 4 2 1 - -"}, {"c19 runtest g 4 2 x - -"},
+		{"c19 proxied g 4 2 z:-"}, {"c19 proxied g 0 2 o:-"}, {"c19 proxied g 4 2 o:m/zz/1"}, {"c19 proxied g 4 2 o"},
 	} {
 		start("refused")
 		g.cs.Ops = ops
